@@ -469,7 +469,7 @@ def run(ctx):
     from vlib import env
     sdir = env.scratch()
     rec = ctx.rec
-    ndocs = ctx.pick(1500, 30000)
+    ndocs = ctx.pick(1500, 100000)
     lat = lattice_cases()
     rec.extra["lattice_size"] = len(lat) if ctx.shard == 0 else 0
     # 1. value-shape lattice (complete in both tiers; string entry + save/load)
